@@ -15,6 +15,9 @@ GOENV = dict(os.environ, GOFLAGS="-mod=mod", GOPROXY="off", GOSUMDB="off", GOTOO
              GOCACHE=os.environ.get("GOCACHE", os.path.join(WORK, "gocache")))
 
 
+GENMODEL_FROM_REPO = True
+
+
 class Broken(Exception):
     """The check itself could not run (exit 2): never reported as a violation."""
 
@@ -35,6 +38,22 @@ def build_vh(race=False):
     os.makedirs(os.path.join(WORK, "bin"), exist_ok=True)
     h = os.path.join(VERIF, "harness")
     shutil.copyfile(os.path.join(REPO, "go.sum"), os.path.join(h, "go.sum"))
+    # the generated model family (C13, C20) comes from /repo's own generator; if the
+    # generator is broken the committed copy keeps the other checks working
+    gen = os.path.join(h, "genmodel")
+    os.makedirs(gen, exist_ok=True)
+    p = subprocess.run(["go", "run", "./cmd/modelgen", "-extended", "-p", "genmodel", "-o", gen,
+                        os.path.join(VERIF, "schemas", "iso.ovsschema")], cwd=REPO, env=GOENV, capture_output=True, text=True)
+    ok = p.returncode == 0 and os.path.exists(os.path.join(gen, "d.go"))
+    if ok:
+        p2 = subprocess.run(["go", "build", "./genmodel/"], cwd=h, env=GOENV, capture_output=True, text=True)
+        ok = p2.returncode == 0
+    if not ok:
+        fb = os.path.join(h, "genmodel.fallback")
+        for f in os.listdir(fb):
+            shutil.copyfile(os.path.join(fb, f), os.path.join(gen, f[:-4]))
+    global GENMODEL_FROM_REPO
+    GENMODEL_FROM_REPO = ok
     out = os.path.join(WORK, "bin", "vh-race" if race else "vh")
     cmd = ["go", "build", "-tags", "verif", "-o", out]
     if race:
